@@ -132,7 +132,6 @@ SHARE = [
     (r"^c15_close_queued_w2s_preserveacknowledged_q0$", ["C10"]),
     (r"^c18_close_retry_limit_l2c2$", ["C15"]),
     (r"^c07_connack_success$", ["C17", "C14"]),
-    (r"^c01_real_(fail_q1|ok_q1_puback)$", ["C06"]),
 ]
 
 
